@@ -153,6 +153,7 @@ class Interp:
         self.encoded = set()         # crate functions actually executed (for evidence)
         self.modelled = set()        # model keys actually used
         self.env = {}                # harness-provided hooks (clock, rng, ...)
+        self.fstack = []             # crate functions being executed (innermost last)
         self.drop_hooks = False      # set by harnesses whose model values have destructors with effects
         self._index()
         from . import models
@@ -224,6 +225,8 @@ class Interp:
         modules (taskdb::sync::Version / server::local::Version in the 'full' dump) are told apart by the module path of
         the declared type"""
         lst = self.impls.get((trait, name)) or []
+        # impls nested inside a derive expansion (visitors) carry the span of the derive as well: keep the outermost
+        lst = [p for p in lst if p.count('<impl at ') == 1] or lst
         if len(lst) <= 1:
             return lst[0] if lst else None
         t = strip_generics(ty_hint or '').lstrip('&').strip()
@@ -656,6 +659,7 @@ class Interp:
         self.depth += 1
         if self.depth > 400:
             raise Unsupported('call depth exceeded')
+        self.fstack.append(f)
         try:
             while True:
                 for st in blocks[bb]:
@@ -761,6 +765,7 @@ class Interp:
                     raise StepLimit()
         finally:
             self.depth -= 1
+            self.fstack.pop()
 
     def discr(self, lv):
         v = lv.get()
@@ -888,6 +893,15 @@ class Interp:
             if body is None:
                 raise Unsupported('closure body not found for ' + path)
             return Closure(body, vals)
+        if path.endswith(('::__ignore',)) or '::__Field::__field' in path:
+            # serde-derive's field/variant identifier enum (`__field0.. __fieldN, __ignore`), not in the source text: the
+            # discriminant of `__fieldK` is K, `__ignore` follows the last field of the identifier visitor being executed
+            # (equally named enums of one expansion differ in their number of fields, so nothing is cached)
+            last = path.rsplit('::', 1)[-1]
+            if last.startswith('__field') and last[7:].isdigit():
+                return Adt('__Field', int(last[7:]), vals)
+            if last == '__ignore' and self.fstack:
+                return Adt('__Field', self._serde_field_count(self.fstack[-1]), vals)
         ent = self._agg_cache.get(path)
         if ent is None:
             p = strip_generics(path)
@@ -900,6 +914,20 @@ class Interp:
                     ent = (parts[-2], vi)
             self._agg_cache[path] = ent
         return Adt(ent[0], ent[1], vals)
+
+    def _serde_field_count(self, f):
+        """number of `__fieldK` variants of the identifier enum built by the serde-generated visitor body f"""
+        c = self._agg_cache.get(('serde-fields', f.name, f.start))
+        if c is None:
+            lines = self.crate.lines
+            k, mx = f.start + 1, -1
+            while k < len(lines) and lines[k] != '}':
+                for m in re.finditer(r'::__field(\d+)\b', lines[k]):
+                    mx = max(mx, int(m.group(1)))
+                k += 1
+            c = mx + 1
+            self._agg_cache[('serde-fields', f.name, f.start)] = c
+        return c
 
     # ------------------------------------------------------------------ arithmetic
     def binop(self, op, a, b, ty):
